@@ -227,3 +227,45 @@ func vfC13AtYClamp(c int) {
 	vfAssert("at-y-valid", t.Y < uint32(1)<<uint32(z))
 	vfAssert("at-y-clamp", vfIteI(lat > 0, int(t.Y), int(t.Y)+1) == vfIteI(lat > 0, 0, 1<<uint(z)))
 }
+
+// ---- point -> tile: the tile's longitude range contains the point (exact arithmetic) ----
+// Real-number model of the float operations: the claim is containment in exact arithmetic for every
+// real longitude in [-180, 180] (antimeridian and tile edges included); the rounding of the two
+// float operations of Fraction is outside this harness (vfC13AtX covers validity bit-precisely).
+// Also: the centre of the tile's longitude range maps back to the same column, and horizontally
+// neighbouring tiles share their edge longitude exactly.
+
+func vfC13AtBound_N(tier int) int     { return 31 }
+func vfC13AtBound_Label(c int) string { return fmt.Sprintf("z=%d", vfZoomOrder[c]) }
+
+func vfC13AtBound(c int) {
+	z := Zoom(vfZoomOrder[c])
+	lon := vfReal("lon")
+	vfAssume(vfAnd(lon >= -180, lon <= 180))
+	t := At([2]float64{lon, 0}, z)
+	vfReach("at-bound")
+	n := float64(uint64(1) << uint(z))
+	lo := float64(t.X)/n*360 - 180
+	hi := (float64(t.X)+1)/n*360 - 180
+	vfAssert("at-lon-range-contains-point", vfAnd(lo <= lon, lon <= hi))
+	b := t.Bound()
+	vfAssert("at-bound-contains-lon", vfAnd(b.Min[0] <= lon, lon <= b.Max[0]))
+	vfAssert("at-bound-is-column-range", vfAnd(b.Min[0] == lo, b.Max[0] == hi))
+	// centre of the column maps back to the column
+	ct := At([2]float64{(lo + hi) / 2, 0}, z)
+	vfAssert("at-centre-maps-back", ct.X == t.X)
+	// the eastern neighbour (if any) starts exactly where this tile ends
+	if z > 0 {
+		if vfSymTrueI(uint64(t.X)+1 < uint64(1)<<uint(z)) {
+			nb := Tile{X: t.X + 1, Y: t.Y, Z: z}.Bound()
+			vfAssert("neighbours-share-edge", nb.Min[0] == b.Max[0])
+		}
+	}
+}
+
+func vfSymTrueI(c bool) bool {
+	if c {
+		return true
+	}
+	return false
+}
